@@ -81,3 +81,4 @@ def run(ctx, R):
     a64dsread.rule_dsread_light(ctx, R)
     rvdsread.rule_dsread(ctx, R)
     rvdsread.rule_loopload(ctx, R)
+    rvdsread.rule_dsread_light(ctx, R)
